@@ -70,6 +70,9 @@ class PolyRef:
         n = len(self.x)
         m = sum(self.x) / n
         self.spread = float(max(abs(v - m) for v in self.x))
+        # the recurrence coefficients alpha_k = sum(x p_k^2)/sum(p_k^2) are formed from the raw x: an offset |mean| that
+        # is large relative to the spread costs log2(1 + |mean|/spread) further bits
+        self.offset_factor = 1.0 + float(abs(m)) / self.spread
         # three-term recurrence coefficients of the monic polynomials: p_{k+1} = (t - alpha_k) p_k - beta_k p_{k-1}
         self.alpha = [sum(xi * v * v for xi, v in zip(self.x, self.V[k])) / self.n2[k] for k in range(degree)]
         self.beta = [None] + [self.n2[k] / self.n2[k - 1] for k in range(1, degree)]
@@ -106,7 +109,7 @@ class PolyRef:
 
     def tol(self, k, base=1e-9, c=64.0):
         """absolute tolerance for (unit-norm) column k = 1..degree"""
-        return max(base, c * U * self.K[k - 1])
+        return max(base, c * U * self.K[k - 1] * self.offset_factor)
 
 
 # ---------------------------------------------------------------------------
